@@ -599,12 +599,12 @@ theorem pTypes_err : ∀ (types : List Elem) (seen : List String) (d : Diag), pT
         · exact Or.inl ⟨t', by simp [ht'], hh⟩
         · exact Or.inr (mem_repeats_map_cons (fun (e : Elem) => e.name.toLower) seen t rest _ _ h4 hh)
 
-theorem parsePhase_sound (s : SchemaDef) (d : Diag) (h : parsePhase s = .error d) : d.viol ∈ enforcedViolations s := by
-  have hattr : ∀ w, w ∈ attrViols s → w ∈ enforcedViolations s := by
-    intro w hw; unfold enforcedViolations; simp only [List.mem_append]
+theorem parsePhase_sound (s : SchemaDef) (d : Diag) (h : parsePhase s = .error d) : d.viol ∈ violations s := by
+  have hattr : ∀ w, w ∈ attrViols s → w ∈ violations s := by
+    intro w hw; unfold violations; simp only [List.mem_append]
     exact Or.inl (Or.inl (Or.inl (Or.inl (Or.inl (Or.inl hw)))))
-  have hdup : ∀ w, w ∈ dupViols s → w ∈ enforcedViolations s := by
-    intro w hw; unfold enforcedViolations; simp only [List.mem_append]
+  have hdup : ∀ w, w ∈ dupViols s → w ∈ violations s := by
+    intro w hw; unfold violations; simp only [List.mem_append]
     exact Or.inl (Or.inl (Or.inl (Or.inl (Or.inl (Or.inr hw)))))
   simp only [parsePhase] at h
   rw [need_bind_err] at h
@@ -804,14 +804,14 @@ theorem cMessage_err (m : MessageDef) (d : Diag) (h : cMessage m = .error d) :
         exact ⟨_, hself, Or.inr (Or.inr ⟨x, hx, h2, rfl⟩)⟩
 
 theorem keyword_enforced (s : SchemaDef) (n : String) (p : Path) (hm : (n, p) ∈ entityNames s) (hk : isKeyword n = true) :
-    (DiagClass.keywordName, p) ∈ enforcedViolations s := by
-  unfold enforcedViolations nameViols
+    (DiagClass.keywordName, p) ∈ violations s := by
+  unfold violations nameViols
   simp only [List.mem_append]
   refine Or.inl (Or.inl (Or.inl (Or.inl (Or.inr (Or.inl (List.mem_filterMap.mpr ⟨(n, p), hm, ?_⟩))))))
   simp [keyword_symbolic n hk, hk]
 
 theorem cRoot_sound (s : SchemaDef) (t : Elem) (ht : t ∈ s.types) (d : Diag)
-    (h : cElem ["types", t.name] t = .error d) : d.viol ∈ enforcedViolations s := by
+    (h : cElem ["types", t.name] t = .error d) : d.viol ∈ violations s := by
   obtain ⟨q, x, hm, hb⟩ := cElem_err t _ d h
   have hall : (q, x) ∈ allElems s := by unfold allElems; exact List.mem_flatMap.mpr ⟨t, ht, hm⟩
   rcases hb with ⟨h1, hv⟩ | hsub
@@ -827,7 +827,7 @@ theorem cRoot_sound (s : SchemaDef) (t : Elem) (ht : t ∈ s.types) (d : Diag)
     | ref nm ty o a => exact absurd hsub (by simp)
     | composite nm o elems a => exact absurd hsub (by simp)
 
-theorem cppPhase_sound (s : SchemaDef) (d : Diag) (h : cppPhase s = .error d) : d.viol ∈ enforcedViolations s := by
+theorem cppPhase_sound (s : SchemaDef) (d : Diag) (h : cppPhase s = .error d) : d.viol ∈ violations s := by
   simp only [cppPhase] at h
   rw [need_bind_err] at h
   rcases h with ⟨h1, rfl⟩ | ⟨_, h⟩
@@ -837,7 +837,7 @@ theorem cppPhase_sound (s : SchemaDef) (d : Diag) (h : cppPhase s = .error d) : 
       unfold isReservedCppNamespace at h1
       simp only [Bool.not_eq_eq_eq_not, Bool.not_false, Bool.or_eq_true, Bool.not_eq_true', beq_iff_eq] at h1
       rcases h1 with (h1 | h1) | h1 | h1 <;> simp [h1]
-    unfold enforcedViolations nameViols
+    unfold violations nameViols
     simp only [List.mem_append]
     exact Or.inl (Or.inl (Or.inl (Or.inl (Or.inr (Or.inr (by simp [this, Diag.viol]))))))
   · rcases (bind_err _ _ d).mp h with h | ⟨_, _, h⟩
@@ -857,7 +857,7 @@ theorem cppPhase_sound (s : SchemaDef) (d : Diag) (h : cppPhase s = .error d) : 
 /-- the set the hash order of `validate_type_names` picks from consists of violations -/
 theorem cppTypeNames_alts_sound (s : SchemaDef) (d : Diag)
     (h : anyOrder (firstErrors (fun t => cElem ["types", t.name] t) s.types) = .error d) :
-    ∀ w ∈ d.alts, w ∈ enforcedViolations s := by
+    ∀ w ∈ d.alts, w ∈ violations s := by
   obtain ⟨_, halts⟩ := anyOrder_err _ d h
   intro w hw
   obtain ⟨e, he, rfl⟩ := halts w hw
@@ -868,27 +868,27 @@ theorem cppTypeNames_alts_sound (s : SchemaDef) (d : Diag)
 
 /-- **check_error_sound**: the class and the entity of the diagnostic the model reports are a
     rule of the specification that is broken at that entity -/
-theorem check_error_sound_all (hfp : FpAgree) (s : SchemaDef) (hpl : CharEnumsPlain s.types)
-    (hnr : NoTopLevelRef s.types) (d : Diag) (h : check s = .error d) : d.viol ∈ enforcedViolations s := by
+theorem check_error_sound_all (hfp : FpAgree) (s : SchemaDef)
+    (hnr : NoTopLevelRef s.types) (d : Diag) (h : check s = .error d) : d.viol ∈ violations s := by
   simp only [check] at h
   rcases (bind_err _ _ d).mp h with h | ⟨_, hp, h⟩
   · exact parsePhase_sound s d h
   · have hp' : parsePhase s = .ok () := hp
     obtain ⟨_, _, hnd⟩ := parsePhase_good s hp'
     rcases (bind_err _ _ d).mp h with h | ⟨_, ht, h⟩
-    · exact (typesPhase_sound hfp s hpl hnd d h).1
+    · exact (typesPhase_sound hfp s hnd d h).1
     · have ht' : typesPhase s = .ok () := ht
-      have hsz : SizesAgree s.types := (typesPhase_good hfp s hpl ht').1
+      have hsz : SizesAgree s.types := sizesAgree_of_phase hfp s ht'
       rcases (bind_err _ _ d).mp h with h | ⟨_, _, h⟩
-      · exact messagesPhase_sound hfp s hpl hnr hsz d h
+      · exact messagesPhase_sound hfp s hnr hsz d h
       · exact cppPhase_sound s d h
 
 /-- … and when `validate_types` fails, every diagnostic of the set from which the hash order
     of the `unordered_map` picks is such a broken rule -/
-theorem check_error_sound_alts (hfp : FpAgree) (s : SchemaDef) (hpl : CharEnumsPlain s.types)
+theorem check_error_sound_alts (hfp : FpAgree) (s : SchemaDef)
     (hp : parsePhase s = .ok ()) (d : Diag) (h : typesPhase s = .error d) :
-    ∀ w ∈ d.alts, w ∈ enforcedViolations s :=
-  (typesPhase_sound hfp s hpl (parsePhase_good s hp).2.2 d h).2
+    ∀ w ∈ d.alts, w ∈ violations s :=
+  (typesPhase_sound hfp s (parsePhase_good s hp).2.2 d h).2
 
 
 end Sbepp.Schema.Rules
